@@ -7,6 +7,7 @@ CONSTANTS
   Messages <- HistMessages
   Servers <- HistServers
   Forms <- McForms
+  Vias <- McDirect
   MaxServes = 4
   Deviation = "none"
 INVARIANTS TypeOk SuccessIff EnvelopeWellFormed ErrorOwnCode UnmarshalableIsError ClientNeverConfuses ResponseOfCurrentValue AnswerIsCurrent
